@@ -90,6 +90,37 @@ def squeeze(s):
     return ''.join(s.split())
 
 
+class _Aborts:
+    """its printer returns an invalid value: pformat raises ValueError half-way through a print"""
+
+
+@prettyprinter.register_pretty(_Aborts)
+def _pretty_aborts(v, ctx):
+    return None
+
+
+def abort_probe(sh, root, text, width, case):
+    """a print that RAISED must leave no residue either: the same aborting call raises again (instead of printing a recursion
+    marker for an object left in the visited set), and the graph prints as before"""
+    lst = _Aborts()          # at top level the invalid return value is reported with ValueError (nested it may surface as a fallback warning)
+    for attempt in (1, 2, 3):
+        try:
+            out = prettyprinter.pformat(lst, width=width)
+        except ValueError:
+            continue
+        except Exception as e:
+            sh.violation('abort-probe-raised', repr(e), case)
+            return
+        sh.violation('residue-after-aborted-print', 'attempt %d of a print whose printer returns an invalid value returned %r instead of raising ValueError' % (attempt, out[:200]), case)
+        return
+    M.take_warnings()
+    after, _ = M.pp(root, width=width)
+    if after != text:
+        sh.violation('residue-after-aborted-print', 'after an aborted print the value prints as %r instead of %r' % (after[:200], text[:200]), case)
+        return
+    sh.counters['aborted prints followed by identical re-prints'] += 1
+
+
 TR = M.VisitedTracer()
 
 
@@ -173,6 +204,8 @@ def check_graph(sh, root, desc, width, n_objects, other=None):
             sh.violation('reprint-differs', 'another value printed before and after differs: %r vs %r' % (o1[:300], o2[:300]), case)
             return None
     sh.counters['re-prints verified'] += 1
+    if other is not None:
+        abort_probe(sh, root, text, width, case)
     return stats
 
 
@@ -477,7 +510,7 @@ def run_shard(sh):
 
 
 def finalize(m):
-    for name in ('outputs equal to the reference DFS', 'recursion markers verified', 'visited-set events checked', 're-prints verified', 'is_visited answers True (markers) observed', 'graphs through other container kinds verified (marker sequence)'):
+    for name in ('outputs equal to the reference DFS', 'recursion markers verified', 'visited-set events checked', 're-prints verified', 'is_visited answers True (markers) observed', 'graphs through other container kinds verified (marker sequence)', 'aborted prints followed by identical re-prints'):
         if not m.counters.get(name):
             m.inconclusive.append('monitor never reached: ' + name)
 
